@@ -59,12 +59,18 @@ IMAP3 = {"a": 0, "b": 1, "c": 2}
 
 
 def case_rules(case):
+    if case.get("symmap"):
+        m = case["symmap"]
+        return [(h, tuple(m.get(y, y) for y in b)) for h, b in case["rules"]]
     if case.get("ints"):
         return [(h, tuple(IMAP3.get(y, y) for y in b)) for h, b in case["rules"]]
     return [(h, tuple(b)) for h, b in case["rules"]]
 
 
 def case_terms(case):
+    if case.get("symmap"):
+        m = case["symmap"]
+        return {m.get(t, t) for t in set(TERMS) | {y for h, b in case["rules"] for y in b if isinstance(y, str) and y[:1].islower()}}
     if case.get("ints"):
         return {0, 1, 2}
     t = set(TERMS)
